@@ -660,6 +660,12 @@ class World:
             warnings.filterwarnings("ignore", category=SparseEfficiencyWarning)
         except Exception:  # pragma: no cover
             pass
+        if self.config.get("warnings", {}).get("kind") == "error_sparse":
+            # the host (e.g. a test runner with filterwarnings=error) turned SciPy's efficiency warnings into errors
+            # *after* graphslam was imported, so its import-time "ignore" filter no longer wins
+            from scipy.sparse import SparseEfficiencyWarning
+
+            warnings.filterwarnings("error", category=SparseEfficiencyWarning)
         if self.config.get("warnings", {}).get("kind") == "error":
             # the process runs with -W error::MatrixRankWarning: a singular factor raises instead of NaN-filling
             from scipy.sparse.linalg import MatrixRankWarning
